@@ -226,6 +226,10 @@ func history(r *fw.R, s scen) {
 			r.Violate("panic-in-history", fmt.Sprintf("%v\n%s", run.Panic, run.PanicStack))
 			return false
 		}
+		if strings.HasPrefix(got, "nondeterministic") {
+			r.Violate("nondeterministic-output", fmt.Sprintf("%s: %s", Bodies[probe].Name, got))
+			return false
+		}
 		if got != want {
 			var picks []string
 			for ci, c := range run.Choices {
